@@ -258,3 +258,84 @@ for _cls, _kw in (("hexital.indicators.sma.SMA", {"period": "int"}), ("hexital.i
                   ("hexital.indicators.aroon.AROON", {"period": "int"}), ("hexital.indicators.adx.ADX", {"period": "int", "period_signal": "int"}),
                   ("hexital.indicators.obv.OBV", {}), ("hexital.indicators.vwap.VWAP", {"period": "int"})):
     HEX_TASKS[H + "_build_indicator#settings-of-" + _cls.rsplit(".", 1)[1]] = dict(qualname=H + "_build_indicator", builder=roundtrip_builder(_cls, _kw), contract=ROUNDTRIP)
+
+
+CM = "hexital.core.candle_manager.CandleManager."
+
+
+# ---- C19: CandleManager.append accepts a Candle, a dict, a list (timestamp last) and lists of those with the
+# same result, and leaves the caller's objects alone
+def append_builder(form):
+    def build(ex, st):
+        import z3
+        from hexvc.objects import instantiate
+        from hexvc.state import DictP, ListP, ObjP
+        from hexvc.timevals import DateTimeV
+        from hexvc.values import SFloat, SNum
+        src = ex.ctx.source
+        mcls = src.module("hexital.core.candle_manager").classes["CandleManager"]
+        ccls = src.module("hexital.core.candle").classes["Candle"]
+        src.resolve_class_bases(mcls)
+        src.resolve_class_bases(ccls)
+        vals_ = {f: SFloat(z3.Real(f)) for f in ("open", "high", "low", "close")}
+        vals_["volume"] = SNum(z3.Real("volume"), z3.BoolVal(False))
+        vals_["timestamp"] = DateTimeV(z3.Int("ts"))
+        m = st.alloc(ObjP(mcls, {"candles": st.alloc(ListP([])), "timeframe": None, "timeframe_fill": False,
+                                 "candles_lifespan": None, "candlestick_type": None}))
+        order = ["open", "high", "low", "close", "volume", "timestamp"]
+        if form in ("candle", "candles"):
+            outs = list(instantiate(ex, ccls, [], dict(vals_), st, None))
+            st, c = outs[0]
+            arg = c if form == "candle" else st.alloc(ListP([c]))
+        elif form in ("dict", "dicts", "Dict"):
+            keys = order if form != "Dict" else [k.capitalize() for k in order]
+            d = st.alloc(DictP({k: vals_[o] for k, o in zip(keys, order)}))
+            arg = d if form != "dicts" else st.alloc(ListP([d]))
+        else:
+            l = st.alloc(ListP([vals_[o] for o in order]))
+            arg = l if form == "list" else st.alloc(ListP([l]))
+        env = dict(vals_)
+        env.update({"self": m, "candles": arg})
+        yield st, [m, arg], {}, env
+    return build
+
+
+APPEND = Contract(
+    CM + "append",
+    ensures={
+        "one-candle-appended": "LenOf(self.candles) == 1",
+        "same-values": "self.candles[0].open == open and self.candles[0].high == high and self.candles[0].low == low"
+                       " and self.candles[0].close == close and self.candles[0].volume == volume and self.candles[0].timestamp == timestamp",
+    },
+    result_type="None", props=["C19"], use_at_calls=False, pure_args=["candles"])
+for _form in ("candle", "candles", "dict", "Dict", "dicts", "list", "lists"):
+    HEX_TASKS[CM + "append#" + _form] = dict(qualname=CM + "append", builder=append_builder(_form), contract=APPEND)
+
+
+# ---- task order on every append: collapse -> convert -> trim (C11, C15, C01)
+def tasks_builder(ex, st):
+    from hexvc.state import ListP, ObjP
+    src = ex.ctx.source
+    mcls = src.module("hexital.core.candle_manager").classes["CandleManager"]
+    src.resolve_class_bases(mcls)
+    m = st.alloc(ObjP(mcls, {"candles": st.alloc(ListP([])), "timeframe": "T5", "timeframe_fill": False,
+                             "candles_lifespan": None, "candlestick_type": None, "phase": 0}))
+    yield st, [m], {}, {"self": m}
+
+
+def _phase(k, name):
+    def nat(ex, st, args, kwargs, node):
+        def gen():
+            o = st.heap[args[0].oid]
+            import z3
+            ex.ctx.oblige(st, "pre@call", f"{name}:runs-as-step-{k + 1}-of-collapse-convert-trim", z3.BoolVal(o.fields.get("phase") == k), node)
+            o.fields["phase"] = k + 1
+            yield st, None
+        return gen()
+    return nat
+
+
+TASKS_NATIVES = {CM + "collapse_candles": _phase(0, "collapse_candles"), CM + "convert_candles": _phase(1, "convert_candles"),
+                 CM + "trim_candles": _phase(2, "trim_candles")}
+HEX_TASKS[CM + "_tasks"] = dict(builder=tasks_builder, natives=TASKS_NATIVES, contract=Contract(
+    CM + "_tasks", ensures={"all-three-steps-ran": "self.phase == 3"}, result_type="None", props=["C11", "C15", "C01", "C03"], use_at_calls=False))
